@@ -120,7 +120,7 @@ impl Stats {
                             }
                         }
                         (Who::Prompt, LineRes::Err(k)) => {
-                            if k == "InvalidData" {
+                            if k.starts_with("InvalidData") {
                                 Stats::bump(&mut self.rare, "invalid_utf8_at_prompt", 1)
                             } else {
                                 Stats::bump(&mut self.rare, "read_error_at_prompt", 1)
